@@ -724,7 +724,7 @@ func propC05(re *rootEnv) func(*rapid.T) {
 			if rapid.IntRange(0, 2).Draw(t, fmt.Sprintf("op%d", i)) == 0 {
 				genInto(t, re.view, reflect.ValueOf(S).Elem(), 0, fmt.Sprintf("scribble%d", i))
 				h.add("Scribble", describeStruct(re, S))
-				if al := aliasInto(t, reflect.ValueOf(S).Elem(), fmt.Sprintf("scribble%d", i)); len(al) > 0 {
+				if al := aliasInto(t, re.view, reflect.ValueOf(S).Elem(), fmt.Sprintf("scribble%d", i)); len(al) > 0 {
 					h.add("Alias", strings.Join(al, ", "))
 				}
 				continue
@@ -977,7 +977,7 @@ func propC07(re *rootEnv) func(*rapid.T) {
 			case 0:
 				genInto(t, re.view, reflect.ValueOf(S).Elem(), 0, fmt.Sprintf("preset%d", i))
 				h.add("Preset", describeStruct(re, S))
-				if al := aliasInto(t, reflect.ValueOf(S).Elem(), fmt.Sprintf("preset%d", i)); len(al) > 0 {
+				if al := aliasInto(t, re.view, reflect.ValueOf(S).Elem(), fmt.Sprintf("preset%d", i)); len(al) > 0 {
 					h.add("Alias", strings.Join(al, ", "))
 				}
 			case 1: // Write of any active branch / none into the empty object
